@@ -20,6 +20,9 @@ type Op struct {
 // WCase is a writer-history scenario: one writer, one payload, one call
 // history, one sink plan.
 type WCase struct {
+	// Probe (C08): not one history but a feedback-driven family of them, see
+	// runMarginProbe.
+	Probe   *MarginProbe   `json:"probe,omitempty"`
 	Format  string         `json:"format"` // xz | lzma | lzma2
 	XZ      *XZCfg         `json:"xz,omitempty"`
 	LZ      *LZCfg         `json:"lz,omitempty"`
@@ -303,6 +306,9 @@ func genHistory(r *sim.Rng, n int, flush bool, marks []int, tail bool) []Op {
 
 // shrinkWCase proposes simpler writer cases.
 func shrinkWCase(c *WCase) []*WCase {
+	if c.Probe != nil {
+		return nil
+	}
 	var out []*WCase
 	clone := func() *WCase {
 		d := *c
